@@ -23,7 +23,8 @@
      reconciler, to the current term, for a non-persistent target only from SYNCHRONIZING) and C10_resync_completes
      (when that reconciler writes the entry for a non-persistent target with Applied.Index <> 0, its effect list is:
      every request of the re-push, each answered OK, then the status write; a step executes a prefix, so the entry
-     write implies the whole re-push was delivered in that invocation).
+     write implies the whole re-push was delivered in that invocation) and its step-level form C10_resync_step (the step
+     that raises the applied term appends exactly the complete re-push, all answered OK, to the device log).
    Not covered / stated behaviour: (1) a PERSISTENT target gets applied term := term without any re-push
    (C10_aterm_moves_by_sync, first alternative), and with Applied.Index = 0 nothing is re-pushed; (2) the model lets a
    connection id be reused (LConnUp with an old id): the relation then reappears and the old master is valid again in
@@ -138,6 +139,15 @@ Section C10.
         upd_status t C (C <| c_state := CSynchronized |> <| c_amaster := c_master C |> <| c_aterm := c_term C |>) /\
       c_aterm c = c_term C /\ c_state c = CSynchronized.
   Proof. exact (resync_completes overlay restore resync_payload v_empty d_empty). Qed.
+
+  (* step level: the step that raises the applied term of a non-persistent target with something applied appends the
+     COMPLETE re-push to the device log - every request in the current term, over the master's connection, answered OK *)
+  Theorem C10_resync_step : forall (w : world) l t (C C' : config),
+    cfgs w !! t = Some C -> targets w !! t = Some false -> c_applied C <> 0 ->
+    cfgs (step w l) !! t = Some C' -> c_aterm C' <> c_aterm C ->
+    exists m rs, c_master C = Some m /\ resync_payload (aview C) = map Some rs /\
+      devlog (step w l) = devlog w ++ map (fun r => DevSet t m (c_term C) None r COk) rs.
+  Proof. exact (inst resync_step). Qed.
 End C10.
 Print Assumptions C10_mastership_step.
 Print Assumptions C10_term_monotone.
@@ -151,3 +161,4 @@ Print Assumptions C10_election_id.
 Print Assumptions C10_no_change_before_resync.
 Print Assumptions C10_aterm_moves_by_sync.
 Print Assumptions C10_resync_completes.
+Print Assumptions C10_resync_step.
